@@ -25,7 +25,7 @@ SPEC = dict(
           "call context; directed closures / recursion / by-value vs by-reference / argument programs; exhaustive container kind (13) x "
           "key (19 bracket keys incl. 1 vs \"1\", negative, out of range, keys containing '.', variables + 30 nested dot/bracket paths) x "
           "read | write-then-read; pairs (thorough: triples) of len/add/del/concat operations with aliases; builtin argument checks; "
-          "object templates (single / multiple inheritance, init, super); random programs mixing all of it (2500 quick, 120000 thorough). "
+          "object templates (single / multiple inheritance, init, super); exhaustive outer context {top level, function, method, method inside blocks, init with super, closure of a method} x 11 inner declarations (helper templates / function literals declared, instantiated and called INSIDE the running outer call, parameters named like outer variables, this/super as parameters, recursion) with marks of the OUTER this/super/params/locals afterwards; random programs mixing all of it (2500 quick, 120000 thorough). "
           "Compared: outcome (value or error TYPE) of the program and of every probe, canonical dump of the global scope, ordered "
           "marker trace. Non-trivial = the trace has at least one entry."),
     exhaustive="scope shape x assignment form x definition place; parameters x argument counts x context; container x key x access form",
@@ -42,7 +42,7 @@ SPEC = dict(
 META = dict(
     technique="Lean 4 theorems about the scope chain, heap and call-frame functions the executable evaluator model calls + differential "
               "correspondence of the whole model with Runtime.Eval on exhaustive and random programs with probes and scope dumps",
-    level_text=("Proof (about the functions the evaluator model executes): lookup_nearest (a read resolves to the first scope of the parent "
+    level_text=("Proof (about the functions the evaluator model executes): call_does_not_write_enclosing_frames (this/super/parameters go into the fresh parentless frame: shadow, never overwrite), lookup_nearest (a read resolves to the first scope of the parent "
                 "chain that defines the name, state unchanged), assign_nearest_or_local (+ touches exactly one scope, heap untouched), let_local "
                 "(defines in the current scope whatever the outer scopes hold), inner_not_visible_outside (a definition in a scope that is not on "
                 "the chain changes no resolution and no value read), call frame = new scope index / chain of a linked frame = frame :: chain of "
